@@ -66,6 +66,7 @@ def run(ctx, rep, tier):
     rep.rule("D2", "unordered containers: order-insensitive use only (or copied and sorted)", 8)
     rep.rule("A1", "std::async launches: const callee on immutable shared data, copied arguments, joined before the parent touches shared members", 2)
     rep.rule("D3", "algorithms never read placement coordinates back from the Circuit after construction", 2)
+    rep.rule("D4", "no code runs only when the observing callback is absent (results cannot depend on its presence)", 3)
     rep.rule("CTRL", "positive controls of the zero-instance rules (selftest/c08_controls.cpp)", 5)
 
     n_static = check_z1(prog, rep, "Z1")
@@ -75,6 +76,7 @@ def run(ctx, rep, tier):
     check_d2(ctx, prog, eff, rep, "D2")
     check_a1(ctx, prog, eff, rep, "A1")
     check_d3(ctx, rep)
+    check_d4(ctx, rep)
     rep.extra["static_storage_declarations_examined"] = n_static
     rep.extra["member_declarations_examined"] = n_mut
     if not any(i["rule"] == "Z1" for i in rep.instances):
@@ -161,9 +163,33 @@ def check_z1(prog, rep, rid):
                     rep.violation(rid, x, f, "function-local static variable: %s %s" % (qt(x), x.get("name")),
                                   "initialised once per process and shared by all later runs and threads",
                                   key="%s|local static %s" % (f.short, x.get("name")))
+                elif runtime_initialiser(x):
+                    rep.violation(rid, x, f, "function-local static const initialised from run-time state: %s %s" % (qt(x), x.get("name")),
+                                  "the value computed by the first call (from %s) is reused by every later run in the process" % runtime_initialiser(x),
+                                  key="%s|local static %s" % (f.short, x.get("name")))
     if n == 0 and hasattr(rep, "extra"):
         rep.note("Z1: no declaration of static storage duration at all")
     return n
+
+
+def runtime_initialiser(d):
+    """Name of something non-constant (parameter, member, local variable, this) the initialiser of d depends on, or None."""
+    for c in children(d):
+        for y in walk(c):
+            k = y.get("kind")
+            if k == "CXXThisExpr":
+                return "this"
+            if k == "DeclRefExpr":
+                rd = y.get("referencedDecl") or {}
+                if rd.get("kind") == "ParmVarDecl":
+                    return "parameter %s" % rd.get("name")
+                if rd.get("kind") == "VarDecl":
+                    full = ref_decl(y) or {}
+                    if not (full.get("constexpr") or (qt(full).startswith("const ") and not runtime_initialiser(full) if full.get("_p") is not None and full is not d else False)):
+                        return "variable %s" % rd.get("name")
+            if k == "MemberExpr" and member_decl(y) is not None and member_decl(y).get("kind") == "FieldDecl":
+                return "member %s" % y.get("name")
+    return None
 
 
 # ---- Z2 --------------------------------------------------------------------
@@ -687,3 +713,47 @@ def check_d3(ctx, rep):
         else:
             rep.holds("D3", f.decl, f, "no read of Circuit::{%s} reachable from %s outside pure exporters" % (",".join(flds), entry),
                       "%d functions reachable; pure exporters not entered: %s" % (len(reach), sorted(exporters)))
+
+
+# ---- D4 --------------------------------------------------------------------
+
+def check_d4(ctx, rep):
+    """Branches on `callback.has_value()`: whatever executes only when the callback is ABSENT must be empty (an early return),
+    otherwise the result differs between a run with an observing callback and a run without."""
+    prog = ctx.prog
+    n = 0
+    for f in prog.all_funcs(with_lambdas=False):
+        g = None
+        for x in walk(f.body):
+            if x.get("kind") != "CXXMemberCallExpr":
+                continue
+            ci = callee_info(x)
+            ot = (qt(ci["obj"]) + desugared(ci["obj"])) if ci["obj"] is not None else ""
+            if ci["name"] != "has_value" or not ("PlacementCallback" in ot or "function<void (coloquinte::PlacementStep)>" in ot):
+                continue
+            g = g or cfg_of(f)
+            edges = [e for e in g.nodes if e.kind == "edge" and e.ast is x and isinstance(e.val, bool)]
+            if not edges:
+                continue
+            n += 1
+            absent = [e for e in edges if e.val is False]
+            bad = None
+            for e in absent:
+                # nodes executed only when the callback is absent: dominated by this edge
+                for nd in g.nodes:
+                    if nd.kind in ("stmt", "cond") and nd.ast is not None and e in g.dominators(nd):
+                        k = nd.ast.get("kind")
+                        if k in ("ReturnStmt", "BreakStmt", "ContinueStmt", "NullStmt"):
+                            continue
+                        bad = nd.ast
+                        break
+                if bad is not None:
+                    break
+            if bad is not None:
+                rep.violation("D4", bad, f, "code that runs only when no callback is given",
+                              "a run with an observing callback skips it: coordinates differ with and without the observer",
+                              key="%s|callback-absent-only code" % f.short)
+            else:
+                rep.holds("D4", x, f, "nothing but an early exit depends on the absence of the callback (%s)" % f.short)
+    if n == 0:
+        rep.unknown("D4", "-", None, "callback tests", "no has_value() test on a PlacementCallback found (shape changed)")
